@@ -18,8 +18,11 @@
        of one close by registration id, which is the order of insertion because ids grow);
      - log buffers / lingering image lists (property C12) are not modelled; the clock is assumed to be at least the
        linger time-out so that `now_ms - linger` does not underflow (C11/C12);
-     - the command ring always has room (the harness drains it after every operation), strings fit the 512-byte
-       scratch buffer (C13);
+     - the command ring: its capacity arithmetic is property C06's; here it is an input of the environment, the flag
+       `ring_full` (operation SetRingFull: the driver has stopped reading and the ring has no room for any command,
+       or it reads again and the ring is drained). A command written while the flag is set is refused
+       (DriverProxy returns IllegalState::CouldNotWriteCommandToDriver); the correlation id has been taken by then.
+       Strings fit the 512-byte scratch buffer (C13);
      - callbacks do not call back into the conductor (is_in_callback is false at every entry point);
      - the conductor mutex: an entry point runs with the mutex held; a destructor the conductor runs itself is
        `dtor_locked`; if that destructor would lock the mutex again the operation's outcome is Hang.
@@ -29,7 +32,9 @@ Require Import V.Generated.GenConsts.
 Open Scope Z_scope.
 
 Inductive kind := KPub | KXPub | KSub | KCtr | KDest.
-Inductive status := Awaiting | Registered | Errored.
+Inductive status := Awaiting | Registered | Errored
+  | Dropped.   (* the handle was dropped while the Remove command could not be written: the entry is still there, its weak
+                  reference is set but dead (release_publication / release_counter return early on the refused write) *)
 
 Definition kind_eqb (a b : kind) : bool :=
   match a, b with
@@ -113,7 +118,10 @@ Inductive op :=
 | Close
 | Tick (d : Z)
 | SetDriverHb (t : Z)
-| SetHbCounter (v : Z)      (* 1: the driver allocates this client's heartbeat counter; 2: it reclaims it *)
+| SetHbCounter (v : Z)      (* the driver's CountersManager on the slot of this client's heartbeat counter:
+                               1: allocated, type = client heartbeat, key = this client id; 2: reclaimed;
+                               3: allocated again as the heartbeat of another client (other key); 4: allocated with another type *)
+| SetRingFull (b : bool)
 | DoWork (b : bcast).
 
 Record config := mkCfg { c_tdrv : Z; c_tis : Z }.   (* driver_timeout_ms, inter_service_timeout_ms *)
@@ -124,7 +132,8 @@ Record st := mkSt {
   next_corr : Z; client_id : Z; next_h : Z;
   closed : bool; driver_active : bool; close_sent : bool;
   now : Z; t_work : Z; t_keep : Z; t_res : Z;
-  driver_hb : Z; hb_env : Z; hb_bound : bool
+  driver_hb : Z; hb_env : Z; hb_bound : bool;
+  ring_full : bool                  (* the driver has stopped reading its command ring and the ring has no room left *)
 }.
 
 Definition getm (k : kind) (s : st) : amap :=
@@ -132,30 +141,31 @@ Definition getm (k : kind) (s : st) : amap :=
 
 Definition setm (k : kind) (m : amap) (s : st) : st :=
   match k with
-  | KPub => mkSt m (xpubs s) (subs s) (ctrs s) (dests s) (orphans s) (next_corr s) (client_id s) (next_h s) (closed s) (driver_active s) (close_sent s) (now s) (t_work s) (t_keep s) (t_res s) (driver_hb s) (hb_env s) (hb_bound s)
-  | KXPub => mkSt (pubs s) m (subs s) (ctrs s) (dests s) (orphans s) (next_corr s) (client_id s) (next_h s) (closed s) (driver_active s) (close_sent s) (now s) (t_work s) (t_keep s) (t_res s) (driver_hb s) (hb_env s) (hb_bound s)
-  | KSub => mkSt (pubs s) (xpubs s) m (ctrs s) (dests s) (orphans s) (next_corr s) (client_id s) (next_h s) (closed s) (driver_active s) (close_sent s) (now s) (t_work s) (t_keep s) (t_res s) (driver_hb s) (hb_env s) (hb_bound s)
-  | KCtr => mkSt (pubs s) (xpubs s) (subs s) m (dests s) (orphans s) (next_corr s) (client_id s) (next_h s) (closed s) (driver_active s) (close_sent s) (now s) (t_work s) (t_keep s) (t_res s) (driver_hb s) (hb_env s) (hb_bound s)
-  | KDest => mkSt (pubs s) (xpubs s) (subs s) (ctrs s) m (orphans s) (next_corr s) (client_id s) (next_h s) (closed s) (driver_active s) (close_sent s) (now s) (t_work s) (t_keep s) (t_res s) (driver_hb s) (hb_env s) (hb_bound s)
+  | KPub => mkSt m (xpubs s) (subs s) (ctrs s) (dests s) (orphans s) (next_corr s) (client_id s) (next_h s) (closed s) (driver_active s) (close_sent s) (now s) (t_work s) (t_keep s) (t_res s) (driver_hb s) (hb_env s) (hb_bound s) (ring_full s)
+  | KXPub => mkSt (pubs s) m (subs s) (ctrs s) (dests s) (orphans s) (next_corr s) (client_id s) (next_h s) (closed s) (driver_active s) (close_sent s) (now s) (t_work s) (t_keep s) (t_res s) (driver_hb s) (hb_env s) (hb_bound s) (ring_full s)
+  | KSub => mkSt (pubs s) (xpubs s) m (ctrs s) (dests s) (orphans s) (next_corr s) (client_id s) (next_h s) (closed s) (driver_active s) (close_sent s) (now s) (t_work s) (t_keep s) (t_res s) (driver_hb s) (hb_env s) (hb_bound s) (ring_full s)
+  | KCtr => mkSt (pubs s) (xpubs s) (subs s) m (dests s) (orphans s) (next_corr s) (client_id s) (next_h s) (closed s) (driver_active s) (close_sent s) (now s) (t_work s) (t_keep s) (t_res s) (driver_hb s) (hb_env s) (hb_bound s) (ring_full s)
+  | KDest => mkSt (pubs s) (xpubs s) (subs s) (ctrs s) m (orphans s) (next_corr s) (client_id s) (next_h s) (closed s) (driver_active s) (close_sent s) (now s) (t_work s) (t_keep s) (t_res s) (driver_hb s) (hb_env s) (hb_bound s) (ring_full s)
   end.
 
-Definition set_orphans v (s : st) := mkSt (pubs s) (xpubs s) (subs s) (ctrs s) (dests s) v (next_corr s) (client_id s) (next_h s) (closed s) (driver_active s) (close_sent s) (now s) (t_work s) (t_keep s) (t_res s) (driver_hb s) (hb_env s) (hb_bound s).
-Definition set_next_corr v (s : st) := mkSt (pubs s) (xpubs s) (subs s) (ctrs s) (dests s) (orphans s) v (client_id s) (next_h s) (closed s) (driver_active s) (close_sent s) (now s) (t_work s) (t_keep s) (t_res s) (driver_hb s) (hb_env s) (hb_bound s).
-Definition set_next_h v (s : st) := mkSt (pubs s) (xpubs s) (subs s) (ctrs s) (dests s) (orphans s) (next_corr s) (client_id s) v (closed s) (driver_active s) (close_sent s) (now s) (t_work s) (t_keep s) (t_res s) (driver_hb s) (hb_env s) (hb_bound s).
-Definition set_closed v (s : st) := mkSt (pubs s) (xpubs s) (subs s) (ctrs s) (dests s) (orphans s) (next_corr s) (client_id s) (next_h s) v (driver_active s) (close_sent s) (now s) (t_work s) (t_keep s) (t_res s) (driver_hb s) (hb_env s) (hb_bound s).
-Definition set_driver_active v (s : st) := mkSt (pubs s) (xpubs s) (subs s) (ctrs s) (dests s) (orphans s) (next_corr s) (client_id s) (next_h s) (closed s) v (close_sent s) (now s) (t_work s) (t_keep s) (t_res s) (driver_hb s) (hb_env s) (hb_bound s).
-Definition set_close_sent v (s : st) := mkSt (pubs s) (xpubs s) (subs s) (ctrs s) (dests s) (orphans s) (next_corr s) (client_id s) (next_h s) (closed s) (driver_active s) v (now s) (t_work s) (t_keep s) (t_res s) (driver_hb s) (hb_env s) (hb_bound s).
-Definition set_now v (s : st) := mkSt (pubs s) (xpubs s) (subs s) (ctrs s) (dests s) (orphans s) (next_corr s) (client_id s) (next_h s) (closed s) (driver_active s) (close_sent s) v (t_work s) (t_keep s) (t_res s) (driver_hb s) (hb_env s) (hb_bound s).
-Definition set_t_work v (s : st) := mkSt (pubs s) (xpubs s) (subs s) (ctrs s) (dests s) (orphans s) (next_corr s) (client_id s) (next_h s) (closed s) (driver_active s) (close_sent s) (now s) v (t_keep s) (t_res s) (driver_hb s) (hb_env s) (hb_bound s).
-Definition set_t_keep v (s : st) := mkSt (pubs s) (xpubs s) (subs s) (ctrs s) (dests s) (orphans s) (next_corr s) (client_id s) (next_h s) (closed s) (driver_active s) (close_sent s) (now s) (t_work s) v (t_res s) (driver_hb s) (hb_env s) (hb_bound s).
-Definition set_t_res v (s : st) := mkSt (pubs s) (xpubs s) (subs s) (ctrs s) (dests s) (orphans s) (next_corr s) (client_id s) (next_h s) (closed s) (driver_active s) (close_sent s) (now s) (t_work s) (t_keep s) v (driver_hb s) (hb_env s) (hb_bound s).
-Definition set_driver_hb v (s : st) := mkSt (pubs s) (xpubs s) (subs s) (ctrs s) (dests s) (orphans s) (next_corr s) (client_id s) (next_h s) (closed s) (driver_active s) (close_sent s) (now s) (t_work s) (t_keep s) (t_res s) v (hb_env s) (hb_bound s).
-Definition set_hb_env v (s : st) := mkSt (pubs s) (xpubs s) (subs s) (ctrs s) (dests s) (orphans s) (next_corr s) (client_id s) (next_h s) (closed s) (driver_active s) (close_sent s) (now s) (t_work s) (t_keep s) (t_res s) (driver_hb s) v (hb_bound s).
-Definition set_hb_bound v (s : st) := mkSt (pubs s) (xpubs s) (subs s) (ctrs s) (dests s) (orphans s) (next_corr s) (client_id s) (next_h s) (closed s) (driver_active s) (close_sent s) (now s) (t_work s) (t_keep s) (t_res s) (driver_hb s) (hb_env s) v.
+Definition set_orphans v (s : st) := mkSt (pubs s) (xpubs s) (subs s) (ctrs s) (dests s) v (next_corr s) (client_id s) (next_h s) (closed s) (driver_active s) (close_sent s) (now s) (t_work s) (t_keep s) (t_res s) (driver_hb s) (hb_env s) (hb_bound s) (ring_full s).
+Definition set_next_corr v (s : st) := mkSt (pubs s) (xpubs s) (subs s) (ctrs s) (dests s) (orphans s) v (client_id s) (next_h s) (closed s) (driver_active s) (close_sent s) (now s) (t_work s) (t_keep s) (t_res s) (driver_hb s) (hb_env s) (hb_bound s) (ring_full s).
+Definition set_next_h v (s : st) := mkSt (pubs s) (xpubs s) (subs s) (ctrs s) (dests s) (orphans s) (next_corr s) (client_id s) v (closed s) (driver_active s) (close_sent s) (now s) (t_work s) (t_keep s) (t_res s) (driver_hb s) (hb_env s) (hb_bound s) (ring_full s).
+Definition set_closed v (s : st) := mkSt (pubs s) (xpubs s) (subs s) (ctrs s) (dests s) (orphans s) (next_corr s) (client_id s) (next_h s) v (driver_active s) (close_sent s) (now s) (t_work s) (t_keep s) (t_res s) (driver_hb s) (hb_env s) (hb_bound s) (ring_full s).
+Definition set_driver_active v (s : st) := mkSt (pubs s) (xpubs s) (subs s) (ctrs s) (dests s) (orphans s) (next_corr s) (client_id s) (next_h s) (closed s) v (close_sent s) (now s) (t_work s) (t_keep s) (t_res s) (driver_hb s) (hb_env s) (hb_bound s) (ring_full s).
+Definition set_close_sent v (s : st) := mkSt (pubs s) (xpubs s) (subs s) (ctrs s) (dests s) (orphans s) (next_corr s) (client_id s) (next_h s) (closed s) (driver_active s) v (now s) (t_work s) (t_keep s) (t_res s) (driver_hb s) (hb_env s) (hb_bound s) (ring_full s).
+Definition set_now v (s : st) := mkSt (pubs s) (xpubs s) (subs s) (ctrs s) (dests s) (orphans s) (next_corr s) (client_id s) (next_h s) (closed s) (driver_active s) (close_sent s) v (t_work s) (t_keep s) (t_res s) (driver_hb s) (hb_env s) (hb_bound s) (ring_full s).
+Definition set_t_work v (s : st) := mkSt (pubs s) (xpubs s) (subs s) (ctrs s) (dests s) (orphans s) (next_corr s) (client_id s) (next_h s) (closed s) (driver_active s) (close_sent s) (now s) v (t_keep s) (t_res s) (driver_hb s) (hb_env s) (hb_bound s) (ring_full s).
+Definition set_t_keep v (s : st) := mkSt (pubs s) (xpubs s) (subs s) (ctrs s) (dests s) (orphans s) (next_corr s) (client_id s) (next_h s) (closed s) (driver_active s) (close_sent s) (now s) (t_work s) v (t_res s) (driver_hb s) (hb_env s) (hb_bound s) (ring_full s).
+Definition set_t_res v (s : st) := mkSt (pubs s) (xpubs s) (subs s) (ctrs s) (dests s) (orphans s) (next_corr s) (client_id s) (next_h s) (closed s) (driver_active s) (close_sent s) (now s) (t_work s) (t_keep s) v (driver_hb s) (hb_env s) (hb_bound s) (ring_full s).
+Definition set_driver_hb v (s : st) := mkSt (pubs s) (xpubs s) (subs s) (ctrs s) (dests s) (orphans s) (next_corr s) (client_id s) (next_h s) (closed s) (driver_active s) (close_sent s) (now s) (t_work s) (t_keep s) (t_res s) v (hb_env s) (hb_bound s) (ring_full s).
+Definition set_hb_env v (s : st) := mkSt (pubs s) (xpubs s) (subs s) (ctrs s) (dests s) (orphans s) (next_corr s) (client_id s) (next_h s) (closed s) (driver_active s) (close_sent s) (now s) (t_work s) (t_keep s) (t_res s) (driver_hb s) v (hb_bound s) (ring_full s).
+Definition set_ring_full v (s : st) := mkSt (pubs s) (xpubs s) (subs s) (ctrs s) (dests s) (orphans s) (next_corr s) (client_id s) (next_h s) (closed s) (driver_active s) (close_sent s) (now s) (t_work s) (t_keep s) (t_res s) (driver_hb s) (hb_env s) (hb_bound s) v.
+Definition set_hb_bound v (s : st) := mkSt (pubs s) (xpubs s) (subs s) (ctrs s) (dests s) (orphans s) (next_corr s) (client_id s) (next_h s) (closed s) (driver_active s) (close_sent s) (now s) (t_work s) (t_keep s) (t_res s) (driver_hb s) (hb_env s) v (ring_full s).
 
 (* ClientConductor::new on a fresh ring whose correlation counter is c0: DriverProxy::new takes the client id *)
 Definition init (c0 now0 : Z) : st :=
-  mkSt [] [] [] [] [] [] (c0 + 1) c0 0 false true false now0 now0 now0 now0 0 0 false.
+  mkSt [] [] [] [] [] [] (c0 + 1) c0 0 false true false now0 now0 now0 now0 0 0 false false.
 
 Definition res := outcome (list Z).
 Definition out := (res * list cb * list cmd)%type.
@@ -199,6 +209,8 @@ Definition do_add (k : kind) (a1 a2 a3 : Z) (s : st) : st * out :=
   else
     let id := next_corr s in
     let s1 := set_next_corr (id + 1) s in
+    if ring_full s then (s1, (Err IllegalState, [], []))       (* the id is taken, the command refused: nothing registered *)
+    else
     let s2 := setm k (ins id (new_entry (now s) a1 a2 a3) (getm k s1)) s1 in
     (s2, (Ok [id], [], [Cmd (add_cmd_type k a1) (client_id s) id (add_cmd_args k a1 a2 a3)])).
 
@@ -208,8 +220,13 @@ Definition set_obj (o : option obj) (e : entry) : entry :=
   mkEntry (e_status e) (e_code e) (e_treg e) (e_a1 e) (e_a2 e) (e_a3 e) (e_d1 e) (e_d2 e) (e_d3 e) (e_d4 e) o.
 Definition set_status (v : status) (e : entry) : entry :=
   mkEntry v (e_code e) (e_treg e) (e_a1 e) (e_a2 e) (e_a3 e) (e_d1 e) (e_d2 e) (e_d3 e) (e_d4 e) (e_obj e).
+(* on_error_response; for an entry whose weak reference is dead the new status is never looked at (the lookup tests
+   the weak reference first, closing skips it): the model leaves such an entry as it is *)
 Definition set_error (code : Z) (e : entry) : entry :=
-  mkEntry Errored code (e_treg e) (e_a1 e) (e_a2 e) (e_a3 e) (e_d1 e) (e_d2 e) (e_d3 e) (e_d4 e) (e_obj e).
+  match e_status e with
+  | Dropped => e
+  | _ => mkEntry Errored code (e_treg e) (e_a1 e) (e_a2 e) (e_a3 e) (e_d1 e) (e_d2 e) (e_d3 e) (e_d4 e) (e_obj e)
+  end.
 Definition set_ready (d1 d2 d3 d4 : Z) (o : option obj) (e : entry) : entry :=
   mkEntry Registered (e_code e) (e_treg e) (e_a1 e) (e_a2 e) (e_a3 e) d1 d2 d3 d4 o.
 
@@ -229,6 +246,7 @@ Definition do_find (c : config) (k : kind) (r : Z) (s : st) : st * out :=
         | Awaiting => if timed_out c s e then (s, (Err NoResponse, [], [])) else (s, (Ok [0], [], []))
         | Registered => (s, (Ok [1], [], []))
         | Errored => (s, (Err (Registration (e_code e)), [], []))
+        | Dropped => (s, (Err OtherErr, [], []))
         end
     | _ =>
       match e_obj e with
@@ -241,6 +259,7 @@ Definition do_find (c : config) (k : kind) (r : Z) (s : st) : st * out :=
             (setm k (upd r (set_obj (Some (obj_user h o))) (getm k s1)) s1, (Ok [h], [], []))
       | None =>
         match e_status e with
+        | Dropped => (s, (Err OtherErr, [], []))      (* the weak reference is set but dead: PublicationAlreadyDropped / CounterAlreadyDropped *)
         | Awaiting => if timed_out c s e then (s, (Err NoResponse, [], [])) else (s, (Err NotReady, [], []))
         | Errored => (setm k (remove r (getm k s)) s, (Err (Registration (e_code e)), [], []))
         | Registered =>
@@ -269,6 +288,17 @@ Definition do_release (k : kind) (r : Z) (images : list Z) (s : st) : st * (list
   | Some _ =>
       let id := next_corr s in
       let s1 := set_next_corr (id + 1) s in
+      if ring_full s then
+        (* the Remove command is refused *)
+        match k with
+        | KPub | KCtr =>
+            (* release_publication / release_counter propagate the error with `?`: the entry stays, its handle is gone *)
+            (setm k (upd r (fun e => set_obj None (set_status Dropped e)) (getm k s1)) s1, (inactive_cb s, []))
+        | _ =>
+            (* release_exclusive_publication / release_subscription ignore it and finish the local part *)
+            (setm k (remove r (getm k s1)) s1, (inactive_cb s ++ map (fun img => CbUnavailImg r img 1) images, []))
+        end
+      else
       (setm k (remove r (getm k s1)) s1,
        (inactive_cb s ++ map (fun img => CbUnavailImg r img 1) images, [Cmd (remove_cmd_type k) (client_id s) id [r]]))
   | None => (s, (inactive_cb s, []))
@@ -356,7 +386,7 @@ Definition close_all (s : st) : st * list cb * bool :=
     let orph := orphans s ++ close_pubs KPub (pubs s) ++ close_pubs KXPub (xpubs s) ++ kept KSub sl ++ kept KCtr cl in
     let hang := existsb dtor_locked (dropped sl ++ dropped cl) in
     let s1 := mkSt [] [] [] [] (dests s) orph (next_corr s) (client_id s) (next_h s) true (driver_active s) (close_sent s)
-                   (now s) (t_work s) (t_keep s) (t_res s) (driver_hb s) (hb_env s) (hb_bound s) in
+                   (now s) (t_work s) (t_keep s) (t_res s) (driver_hb s) (hb_env s) (hb_bound s) (ring_full s) in
     (s1, scbs ++ ccbs ++ [CbClose], hang).
 
 (* ---- Agent::on_close ---- *)
@@ -366,7 +396,8 @@ Definition do_close (s : st) : st * out :=
   else if close_sent s1 then (s1, (Ok [0], cbs, []))
   else
     let id := next_corr s1 in
-    (set_close_sent true (set_next_corr (id + 1) s1), (Ok [0], cbs, [Cmd GenConsts.CMD_ClientClose (client_id s1) id []])).
+    (set_close_sent true (set_next_corr (id + 1) s1),
+     (Ok [0], cbs, if ring_full s1 then [] else [Cmd GenConsts.CMD_ClientClose (client_id s1) id []])).
 
 (* ---- DriverListener for ClientConductor ---- *)
 Fixpoint remove_first (x : Z) (l : list Z) : option (list Z) :=
@@ -529,6 +560,7 @@ Definition step (c : config) (s : st) (o : op) : st * out :=
   | Tick d => (set_now (now s + d) s, (Ok [], [], []))
   | SetDriverHb t => (set_driver_hb t s, (Ok [], [], []))
   | SetHbCounter v => (set_hb_env v s, (Ok [], [], []))
+  | SetRingFull b => (set_ring_full b s, (Ok [], [], []))
   | DoWork b => do_work c b s
   end.
 
